@@ -2666,7 +2666,14 @@ class DeltaChainIterator(Generic[T]):
             self._ensure_no_pending()
             return
 
-        for base_sha, pending in sorted(self._pending_ref.items()):
+        # Visit the bases in the order in which the pack needs them (position
+        # of the first delta waiting for each), not by name: a base that is
+        # itself a delta in this pack is then resolved in the pack, through
+        # its own base, before the store is asked for it. Asked by name
+        # first, it was taken from the store and appended a second time.
+        for base_sha, pending in sorted(
+            self._pending_ref.items(), key=lambda item: min(item[1])
+        ):
             if base_sha not in self._pending_ref:
                 continue
             try:
